@@ -41,6 +41,9 @@ type c15Case struct {
 func genC15(t *rapid.T) c15Case {
 	c := c15Case{}
 	c.Shape = gen.DrawShape(t, gen.ShapeOpts{})
+	if rapid.IntRange(0, 4).Draw(t, "externals") == 0 {
+		c.Shape.Xform = 4 // output depends on external properties
+	}
 	c.Recs = gen.DrawRecs(t, c.Shape, "r", 0, 6, gen.ValueOpts{})
 	n := rapid.IntRange(0, 5).Draw(t, "nothers")
 	for i := 0; i < n; i++ {
@@ -96,12 +99,18 @@ func TestC15Child(t *testing.T) {
 	fmt.Printf("%s%s\n", c15ChildMarker, out)
 }
 
+// c15ExtA are the external properties of the measured transform, c15ExtB those of the other transforms.
+var (
+	c15ExtA = map[string]string{"tag": "A", "xp": "c0"}
+	c15ExtB = map[string]string{"tag": "B", "xp": "*[last()]"}
+)
+
 func c15Run(schema string, in []byte) ([]run.Step, error) {
 	sch, err := run.NewSchema(schema)
 	if err != nil {
 		return nil, fmt.Errorf("schema rejected: %v", err)
 	}
-	return run.Transcript(sch, bytes.NewReader(in), run.Opts{InputLen: len(in), WithRaw: true})
+	return run.Transcript(sch, bytes.NewReader(in), run.Opts{InputLen: len(in), WithRaw: true, External: c15ExtA})
 }
 
 func c15RunChild(schema string, in []byte) ([]run.Step, error) {
@@ -143,8 +152,15 @@ func checkC15(c c15Case) obs.Result {
 	if err != nil {
 		return obs.Result{Excluded: "schema rejected: " + err.Error()}
 	}
-	onShared := func(input []byte) ([]run.Step, error) {
-		return run.Transcript(shared, bytes.NewReader(input), run.Opts{InputLen: len(input), WithRaw: true})
+	onSharedExt := func(input []byte, ext map[string]string) ([]run.Step, error) {
+		return run.Transcript(shared, bytes.NewReader(input), run.Opts{InputLen: len(input), WithRaw: true, External: ext})
+	}
+	onShared := func(input []byte) ([]run.Step, error) { return onSharedExt(input, c15ExtA) }
+	// the Schema object's very first use is by ANOTHER transform (other external properties, same input): whatever it
+	// computes must not stick to the schema (compared below with a run on a freshly parsed Schema)
+	if c.Child || len(c.Others)%2 == 1 {
+		_, _ = onSharedExt(in, c15ExtB)
+		classes = append(classes, "schema-first-used-by-another-transform")
 	}
 	first, err := onShared(in)
 	if err != nil {
@@ -158,7 +174,7 @@ func checkC15(c c15Case) obs.Result {
 			oin = oin[:o.Cut%len(oin)]
 		}
 		if o.SameSchema {
-			if _, err := onShared(oin); err != nil {
+			if _, err := onSharedExt(oin, c15ExtB); err != nil {
 				return obs.Result{Excluded: "other transform has no terminal result"}
 			}
 			classes = append(classes, "shared-schema-object")
